@@ -6,7 +6,7 @@ ID = "C17"
 SUBCMD = "c17"
 IMPORTS = engcommon.IMPORTS + ["Cost"]
 HARNESS = "c17_harness"
-COQ_TARGETS = engcommon.COQ_BASE + ["Cost.vo", "CostProofs.vo", "Props/C17.vo"]
+COQ_TARGETS = engcommon.COQ_BASE + ["Cost.vo", "CostProofs.vo", "ClosedForm.vo", "Props/C17.vo"]
 STALL = 60
 CORRESPONDENCE = "Context.CallCount of the implementation = calls of the engine model, for the six families at sizes n and 2n"
 RULE = ("the six grammar families of the property (P -> P b | a; expr/term/factor; mutually left-recursive pair; hidden left "
@@ -75,7 +75,7 @@ def generate(rng, tier):
 
 MANIFEST = {
     "technique": "kernel computation (vm_compute, forallb lifted by forallb_forall) of the model's call counts over the property's bounded domain + exact equality of the implementation's CallCount with the model's",
-    "text": ("Props/C17.v: C17_growth_bounded — for each of the six families and EVERY size n in {8,16,...,160} (arithmetic family "
+    "text": ("Props/C17.v: C17_direct_closed_form / C17_direct_growth_unbounded — for the direct family an UNBOUNDED theorem: for every n >= 1 the model makes exactly (n^2+9n+16)/2 calls (symbolic proof by induction on the curtailment depth), hence calls(2n) <= 4 calls(n) for all n; and C17_growth_bounded — for each of the six families and EVERY size n in {8,16,...,160} (arithmetic family "
              "up to 80): calls(2n) <= 16 calls(n) and calls(n) <= 4(n+1)^4, computed by the Coq kernel on the engine model and lifted to "
              "a quantified statement; C17_deterministic. This matches the property's own bounded quantifier (inputs up to several "
              "hundred bytes); it is NOT a bound for arbitrary grammars or sizes (partial, said in DESIGN.md). The check requires the "
